@@ -35,7 +35,9 @@ type c35Inner struct {
 	primary string
 	script  []string
 	tail    string
-	healed  bool // after the primary operation: error-free
+	vary    string // list: how the listing differs between attempts ("same" | "size" | "order" | "both")
+	lists   int    // list attempts so far
+	healed  bool   // after the primary operation: error-free
 	applied []string
 	files   map[string][]byte
 	data    []byte
@@ -69,7 +71,7 @@ func (b *c35Inner) IsPermanentError(err error) bool {
 
 func c35Err(f string) error {
 	switch f {
-	case "perm":
+	case "perm", "ppartial":
 		return fmt.Errorf("wrapped: %w", c35ErrPermanent)
 	case "notexist":
 		return fmt.Errorf("wrapped: %w", c35ErrNotExist)
@@ -91,7 +93,7 @@ func (b *c35Inner) Save(_ context.Context, h backend.Handle, rd backend.RewindRe
 	case "ok":
 		b.files[h.Name] = content
 		return nil
-	case "partial":
+	case "partial", "ppartial":
 		if !b.atomic {
 			b.files[h.Name] = append([]byte{}, content[:len(content)/2]...)
 		}
@@ -104,10 +106,14 @@ func (b *c35Inner) Save(_ context.Context, h backend.Handle, rd backend.RewindRe
 type c35HalfReader struct {
 	data []byte
 	pos  int
+	perm bool
 }
 
 func (r *c35HalfReader) Read(p []byte) (int, error) {
 	if r.pos >= len(r.data)/2 {
+		if r.perm {
+			return 0, fmt.Errorf("read: %w", c35ErrPermanent)
+		}
 		return 0, fmt.Errorf("read: %w", c35ErrTransient)
 	}
 	n := copy(p, r.data[r.pos:len(r.data)/2])
@@ -125,6 +131,10 @@ func (b *c35Inner) Load(_ context.Context, h backend.Handle, _ int, _ int64, fn 
 		return fn(bytes.NewReader(b.data))
 	case "partial":
 		if err := fn(&c35HalfReader{data: b.data}); err != nil {
+			return err
+		}
+	case "ppartial":
+		if err := fn(&c35HalfReader{data: b.data, perm: true}); err != nil {
 			return err
 		}
 	case "after":
@@ -168,6 +178,19 @@ func (b *c35Inner) List(_ context.Context, _ backend.FileType, fn func(backend.F
 	if b.primary == "list" {
 		f = b.next()
 	}
+	// the listing of this attempt: between attempts the order may change and sizes may change (a file that is
+	// still being written or was replaced); the set of names is the same
+	b.lists++
+	order := append([]int{}, b.names...)
+	if (b.vary == "order" || b.vary == "both") && b.lists%2 == 0 {
+		for i, j := 0, len(order)-1; i < j; i, j = i+1, j-1 {
+			order[i], order[j] = order[j], order[i]
+		}
+	}
+	size := int64(1)
+	if b.vary == "size" || b.vary == "both" {
+		size = int64(b.lists)
+	}
 	n := len(b.names)
 	switch f {
 	case "mid0":
@@ -179,8 +202,8 @@ func (b *c35Inner) List(_ context.Context, _ backend.FileType, fn func(backend.F
 	case "perm":
 		return c35Err(f)
 	}
-	for _, nm := range b.names[:n] {
-		if err := fn(backend.FileInfo{Name: fmt.Sprintf("f%d", nm), Size: 1}); err != nil {
+	for _, nm := range order[:n] {
+		if err := fn(backend.FileInfo{Name: fmt.Sprintf("f%d", nm), Size: size}); err != nil {
 			return err
 		}
 	}
@@ -195,6 +218,7 @@ type c35Vec struct {
 	Atomic bool     `json:"atomic"`
 	Script []string `json:"script"`
 	Tail   string   `json:"tail"`
+	Vary   string   `json:"vary"`
 }
 
 type c35Rec struct {
@@ -204,6 +228,7 @@ type c35Rec struct {
 	Fast     bool     `json:"fast"`
 	Script   []string `json:"script"`
 	Tail     string   `json:"tail"`
+	Vary     string   `json:"vary"`
 	Faults   []string `json:"faults"`
 	OK       bool     `json:"ok"`
 	Final    string   `json:"final"`
@@ -217,10 +242,13 @@ type c35Rec struct {
 }
 
 func c35Run(t *testing.T, v c35Vec, flag, fast bool, size int) c35Rec {
-	rec := c35Rec{Op: v.Op, Flag: flag, Atomic: v.Atomic, Fast: fast, Script: v.Script, Tail: v.Tail, Faults: []string{},
+	rec := c35Rec{Op: v.Op, Flag: flag, Atomic: v.Atomic, Fast: fast, Script: v.Script, Tail: v.Tail, Vary: v.Vary, Faults: []string{},
 		Reported: []int{}, Names: []int{1, 2, 3}, Second: "n/a", Third: "n/a", Final: "none"}
 	if rec.Script == nil {
 		rec.Script = []string{}
+	}
+	if rec.Vary == "" {
+		rec.Vary = "same"
 	}
 	restore := feature.TestSetFlag(t, feature.Flag, feature.BackendErrorRedesign, flag)
 	defer restore()
@@ -234,7 +262,7 @@ func c35Run(t *testing.T, v c35Vec, flag, fast bool, size int) c35Rec {
 	for i := range data {
 		data[i] = byte(i*7 + 3)
 	}
-	inner := &c35Inner{atomic: v.Atomic, primary: v.Op, script: v.Script, tail: v.Tail, files: map[string][]byte{}, data: data, names: []int{1, 2, 3}}
+	inner := &c35Inner{atomic: v.Atomic, primary: v.Op, script: v.Script, tail: v.Tail, vary: v.Vary, files: map[string][]byte{}, data: data, names: []int{1, 2, 3}}
 	h := backend.Handle{Type: backend.PackFile, Name: "file1"}
 	if v.Op == "remove" {
 		inner.files[h.Name] = data
@@ -328,7 +356,7 @@ func c35Run(t *testing.T, v c35Vec, flag, fast bool, size int) c35Rec {
 }
 
 func TestVerif_C35(t *testing.T) {
-	res := kit.NewResult("one case = one operation (Save/Load/Stat/Remove/List) of the real retry.Backend over a scripted backend applying a TLC-generated fault script (faults per attempt, then error-free or failing for ever), for both settings of feature backend-error-redesign and fast/regular back-off; distinct by (op, atomic, flag, script, tail); non-trivial when the script contains a fault")
+	res := kit.NewResult("one case = one operation (Save/Load/Stat/Remove/List) of the real retry.Backend over a scripted backend applying a TLC-generated fault script (faults per attempt, then error-free or failing for ever), for both settings of feature backend-error-redesign and fast/regular back-off; the listing of the wrapped backend may change order and sizes between attempts; distinct by (op, atomic, flag, script, tail, listing variation); non-trivial when the script contains a fault")
 	recs := kit.NewNDJSON("recs.ndjson")
 	defer func() {
 		recs.Close()
@@ -370,7 +398,7 @@ func TestVerif_C35(t *testing.T) {
 					size = 2 // a one-byte file has no proper partial prefix
 				}
 				rec := c35Run(t, v, flag, rng.Intn(2) == 0, size)
-				key, _ := json.Marshal([]any{rec.Op, rec.Atomic, rec.Flag, rec.Script, rec.Tail})
+				key, _ := json.Marshal([]any{rec.Op, rec.Atomic, rec.Flag, rec.Script, rec.Tail, rec.Vary})
 				res.Case(string(key), len(rec.Script) > 0)
 				res.Count("op_"+rec.Op, 1)
 				res.Count("attempts", len(rec.Faults))
